@@ -74,6 +74,9 @@ type Tree struct {
 	// Variant: another data tree over the same schema - every generic value differs
 	// (used to give a machine a different history between two runs on the normal tree)
 	Variant bool
+	// CancelAt k > 0: the k-th callback calls Cancel (the caller's Go context is cancelled while the tree is being asked)
+	CancelAt int
+	Cancel   func()
 }
 
 type EnvError struct{ K int }
@@ -84,6 +87,9 @@ func (t *Tree) record(op string, r Req) error {
 	t.mu.Lock()
 	defer t.mu.Unlock()
 	t.Calls = append(t.Calls, Call{Op: op, Req: r})
+	if t.CancelAt > 0 && len(t.Calls) == t.CancelAt && t.Cancel != nil {
+		t.Cancel()
+	}
 	if t.FailAt > 0 && len(t.Calls) == t.FailAt {
 		return &EnvError{K: t.FailAt}
 	}
@@ -161,7 +167,8 @@ func (e *Entry) FollowLeafRef() (xpath.Entry, error) {
 	if err := e.T.record("follow", e.Req); err != nil {
 		return nil, err
 	}
-	tgt := &sdcpb.Path{IsRootBased: true, Elem: []*sdcpb.PathElem{{Name: "tgt", Key: map[string]string{"k": ToReal(e.Req.String())}}}}
+	tgt := &sdcpb.Path{IsRootBased: true, Elem: []*sdcpb.PathElem{{Name: "tgt", Key: map[string]string{"k": ToReal(e.Req.String()),
+		"j": "2001:db8::1", "m": "p:x", "kk": "a/b[c='d'] =e"}}}} // mirrors DerefTarget of XPathAst.tla
 	return &Entry{T: e.T, Req: ReqOf(tgt), Tgt: tgt}, nil
 }
 
